@@ -19,14 +19,22 @@ VERIF = os.path.dirname(HERE)
 SEEDED = os.path.join(VERIF, 'seeded')
 
 
+class StalePatch(Exception):
+    pass
+
+
 def scratch(patch=None):
     root = tempfile.mkdtemp(prefix='vf_seed_', dir='/dev/shm')
     shutil.copytree('/repo/pmutt', os.path.join(root, 'pmutt'), ignore=shutil.ignore_patterns('__pycache__', '*.pyc'))
     if patch:
         r = subprocess.run(['git', 'apply', '--whitespace=nowarn', patch], cwd=root, capture_output=True, text=True)
         if r.returncode != 0:
+            # later fix: commits may have moved the context; retry with fuzz
+            r = subprocess.run(['patch', '-p1', '-F3', '--no-backup-if-mismatch', '-i', patch], cwd=root,
+                               capture_output=True, text=True)
+        if r.returncode != 0:
             shutil.rmtree(root, ignore_errors=True)
-            raise RuntimeError('patch does not apply: ' + r.stderr[:400])
+            raise StalePatch('patch does not apply: ' + (r.stderr + r.stdout)[:300])
     return root
 
 
@@ -55,7 +63,10 @@ def verify(sid):
         rc_clean, out_clean = run_demo(clean, demo)
     finally:
         shutil.rmtree(clean, ignore_errors=True)
-    root = scratch(patch)
+    try:
+        root = scratch(patch)
+    except StalePatch as e:
+        return sid, False, 'STALE ' + str(e)[:150]
     try:
         rc_pat, out_pat = run_demo(root, demo)
         passed, failed, tail = run_suite(root)
@@ -69,7 +80,10 @@ def detect(sid, props=None, tier='quick'):
     d = os.path.join(SEEDED, sid)
     meta = json.load(open(os.path.join(d, 'meta.json')))
     props = props or [meta['property']]
-    root = scratch(os.path.join(d, 'patch.diff'))
+    try:
+        root = scratch(os.path.join(d, 'patch.diff'))
+    except StalePatch as e:
+        return sid, [(props[0], 'STALE', str(e)[:150])]
     res = []
     try:
         for p in props:
